@@ -143,6 +143,8 @@ fn main() {
                 "C11keyid" => writeln!(out, "{}", c12::keyid_preimages()).unwrap(),
                 "C11all" => writeln!(out, "{}", c11::Ctx::new().all_scalars(n.max(1) as u32)).unwrap(),
                 "C20bin" => writeln!(out, "{}", c20::binary(n)).unwrap(),
+                // n = 0: every crafted extreme-length input; n = k + 1: only the k-th
+                "C20ext" => writeln!(out, "{}", c20::extreme(if n == 0 { usize::MAX } else { n - 1 })).unwrap(),
                 "C03" => {
                     let mut rng = common::rng(3);
                     for run in 0..n {
